@@ -312,12 +312,17 @@ class Ctx:
         self.bins[key] = binp
         return binp
 
-    def replay(self, name, cases_path, race=False, timeout=1800, extra=None, dir=None, env_extra=None):
-        """Run the Go replayer `name` over cases; returns list of result dicts."""
+    AGAIN = 4000   # per-case stages: so many passing cases are replayed once more at the end of the same process
+
+    def replay(self, name, cases_path, race=False, timeout=1800, extra=None, dir=None, env_extra=None, again=None):
+        """Run the Go replayer `name` over cases; returns list of result dicts. A case that passed in its turn but fails
+        when replayed again after all the others (state kept by the library across calls) comes back failing, marked
+        "history": judge reproduces it by running the whole stage again."""
         binp = self.go_build(race)
         self.replay_n += 1
         outp = os.path.join(self.out, "results_%s_%d.ndjson" % (name, self.replay_n))
-        cmd = ["timeout", str(timeout), binp, "-prop", name, "-cases", cases_path, "-out", outp,
+        again = self.AGAIN if again is None else again
+        cmd = ["timeout", str(timeout), binp, "-again", str(again), "-prop", name, "-cases", cases_path, "-out", outp,
                "-seed", str(self.seed), "-tier", self.tier]
         if dir:
             os.makedirs(dir, exist_ok=True)
@@ -340,7 +345,17 @@ class Ctx:
                                        % (lp2, r2.stderr[-1500:]))
             raise Broken("replayer %s died rc=%s: %s" % (name, r.returncode, (r.stderr or r.stdout)[-3000:]))
         res = [json.loads(l) for l in open(outp) if l.strip()]
-        log("replay %-20s cases=%d fails=%d %.1fs" % (name, len(res), sum(1 for x in res if not x["ok"]), time.time() - t0))
+        nagain = 0
+        if os.path.exists(outp + ".again"):
+            for l in open(outp + ".again"):
+                x = json.loads(l)
+                if x["i"] < 0:
+                    nagain = (x.get("info") or {}).get("replayed_again", 0)
+                elif res[x["i"]]["ok"]:
+                    x["history"] = True
+                    res[x["i"]] = x
+            self.notes["replayed_again_in_the_same_process"] = self.notes.get("replayed_again_in_the_same_process", 0) + nagain
+        log("replay %-20s cases=%d fails=%d again=%d %.1fs" % (name, len(res), sum(1 for x in res if not x["ok"]), nagain, time.time() - t0))
         return res
 
     def load_cases(self, path):
@@ -372,8 +387,18 @@ class Ctx:
         for case, r in fails:
             k = r.get("deviation") or "?" + (r.get("what") or "")[:60]
             per_class.setdefault(k, []).append((case, r))
+        whole = None
         for k, lst in per_class.items():
             for case, r in lst[:max_repro if reproduce else 0]:
+                if r.get("history"):
+                    # the failure needs the history of the whole stage: reproduce it by running the whole stage again
+                    if whole is None:
+                        whole = self.replay(name, cases_path, race=race, extra=extra)
+                    r["cases_path"] = cases_path
+                    if whole[r["i"]]["ok"]:
+                        raise Broken("history-dependent failure of %s case %d not reproducible by running the stage again: %s"
+                                     % (name, r["i"], json.dumps(r)[:500]))
+                    continue
                 single = os.path.join(self.out, "single_%s.ndjson" % name)
                 with open(single, "w") as f:
                     f.write(json.dumps(case) + "\n")
@@ -454,6 +479,17 @@ def run_single_replay(prop, path, checks):
     rec = json.load(open(path))
     ctx = Ctx(prop + "_replay", rec.get("tier", "quick"), rec.get("seed", 0))
     ctx.prop = prop
+    if rec.get("result", {}).get("history"):
+        # the failure needs the history of its stage: replay the stage's case file, then look at that case's second run
+        mod = checks[prop]
+        race = getattr(mod, "RACE", {}).get(rec["stage"], False)
+        res = ctx.replay(rec["stage"], rec["result"]["cases_path"], race=race)
+        r = res[rec["result"]["i"]]
+        print(json.dumps(r, indent=1)[:3000])
+        if not r["ok"]:
+            print("VIOLATION property=%s replay=%s" % (prop, path))
+            return 1
+        return 0
     single = os.path.join(ctx.out, "single.ndjson")
     with open(single, "w") as f:
         f.write(json.dumps(rec["case"]) + "\n")
